@@ -15,7 +15,18 @@ if jpath:
 
 import crosshair.core as core  # noqa: E402
 
-core.consider_shortcircuit = lambda *a, **k: None  # always execute the real callee body
+_orig_cs = core.consider_shortcircuit
+
+
+def _never_interpret(fn, sig, bound, subconditions, allow_interpretation):
+    # always execute the real callee body; only functions CrossHair itself registers as "skip body"
+    # (nondeterministic stdlib calls such as time.time) keep their uninterpreted-return treatment
+    if not allow_interpretation:
+        return _orig_cs(fn, sig, bound, subconditions, allow_interpretation)
+    return None
+
+
+core.consider_shortcircuit = _never_interpret
 
 from crosshair.main import main  # noqa: E402
 
